@@ -20,6 +20,7 @@ pub static DEF: PropDef = PropDef {
     ],
     run,
     replay,
+    fuzz: Some(fuzz_one),
 };
 
 // ---------------------------------------------------------------------------
@@ -681,4 +682,29 @@ fn replay(w: &mut Worker, sub: &str, v: Value) -> Outcome {
     } else {
         check_vec(&mut w.ctx, &decode(v))
     }
+}
+
+/// libFuzzer entry: the bytes are the choice stream of the argument-vector generator; the vector
+/// is parsed (and "walked") by find over a starting point that does not exist, so nothing is
+/// visited, executed or deleted.  Oracle: no panic / abort (the process dies on one), and a
+/// vector that the reference recogniser classifies as a non-sentence must not exit 0.
+pub fn fuzz_one(data: &[u8]) -> Option<crate::engine::Violation> {
+    let words = crate::words_of(data);
+    let mut g = Gen::new(&words);
+    let c = gen_vec(&mut g);
+    // -files0-from would replace the (missing) starting point by names from a file: keep it out
+    if c.tokens.iter().any(|t| t == "-files0-from") {
+        return None;
+    }
+    let mut args: Vec<String> = c.flags.clone();
+    args.push("/nonexistent-verif-root/x".into());
+    args.extend(c.tokens.iter().cloned());
+    let a: Vec<&str> = args.iter().map(|s| s.as_str()).collect();
+    let (status, out) = crate::engine::proc::find_plain(&a);
+    if let Class::NonSentence(why) = classify_tokens(&c.tokens) {
+        if status == 0 || !out.is_empty() {
+            return Some(crate::engine::Violation { signature: "C11:malformed-command-line-accepted:fuzz".into(), detail: format!("find {args:?} [{why}] exit {status}") });
+        }
+    }
+    None
 }
